@@ -1513,3 +1513,11 @@ fire("fingerprint-sort-keys-false", ["C03"], "R-FP", T,
      "        return json.dumps(\n            [{key: get_dotted_key(key, options)} for key in sorted(self.keys(options))]\n        ).encode()",
      "        return json.dumps(\n            [{key: get_dotted_key(key, options)} for key in sorted(self.keys(options))],\n            sort_keys=False, default=repr,\n        ).encode()",
      note="a default= hook lets unserialisable values through as their repr (addresses, set orders): not a deterministic function of the values")
+fire("option-explain-scalar-fast-path", ["C11"], "R-XA", O,
+     "            value = get_dotted_key(self.key, options)\n            return (\n                {self.key}\n                | self._template_keys(value, \"explain\", options)",
+     "            value = get_dotted_key(self.key, options)\n            if isinstance(value, (int, float)):\n                return {self.key}\n            return (\n                {self.key}\n                | self._template_keys(value, \"explain\", options)",
+     note="round 11: the fast path returns before the domain's keys are added, keys() still reports them")
+silent("option-explain-scalar-fast-path-with-domain", ["C11"], O,
+       "            value = get_dotted_key(self.key, options)\n            return (\n                {self.key}\n                | self._template_keys(value, \"explain\", options)",
+       "            value = get_dotted_key(self.key, options)\n            if isinstance(value, (int, float)):\n                return {self.key} | self._domain_explain(options)\n            return (\n                {self.key}\n                | self._template_keys(value, \"explain\", options)",
+       note="the same fast path with the domain's keys: numbers carry no templated reference, nothing is lost")
